@@ -124,7 +124,9 @@ def shards(tier, seed):
         ns = max(1, min(64, sz // 100))
         for s in range(ns):
             tasks.append({"universe": u, "shard": s, "nshards": ns, "tier": tier})
-    fam = [(2, 8), (2, 12), (2, 30)] if tier == "quick" else [(2, 8), (2, 12), (2, 20), (2, 30), (2, 45), (2, 60), (3, 15)]
+    # (5,8) (4,12) (3,30): sizes for which measure_best_window_size picks a finite window (the others stay exact)
+    fam = [(2, 8), (2, 30), (5, 8), (4, 12)] if tier == "quick" else \
+        [(2, 8), (2, 12), (2, 20), (2, 30), (2, 45), (2, 60), (3, 15), (5, 8), (4, 12), (3, 30), (5, 10)]
     for n, q in fam:
         tasks.append({"gamma_family": [n, q], "tier": tier})
     tasks.append({"known_shapes": True, "tier": tier})
@@ -207,6 +209,12 @@ def run(task):
     return res
 
 
+def finalize(cov):
+    if cov.get("finite_window_families", 0) < 1:
+        return ["no family got a finite window: the fast path of compute_gamma was not exercised"]
+    return []
+
+
 def run_gamma_family(pa, res, n, q):
     """compute_gamma(fast=True): jobs use the exact algorithm when the window stays at infinity (and then the
     result equals exact gamma for the same seed), the fast one when a finite window is chosen."""
@@ -277,6 +285,7 @@ def run_gamma_family(pa, res, n, q):
                     res["violations"].append({"msg": "fast-mode best alignment is not a partition: " + probs[0],
                                               "case": case})
                 res["nontrivial"].append(key)
+                res["extra"]["finite_window_families"] = res["extra"].get("finite_window_families", 0) + 1
             res["outcomes"].append(h([fam.__name__, n, q, str(window)]))
     finally:
         pa.Continuum.get_best_alignment, pa.Continuum.get_fast_alignment = ob, of
